@@ -197,10 +197,16 @@ def generate(seed: int, tier: str) -> dict:
             if per:
                 ops.append({"actor": "R", "do": ["calculate_add", v["name"], per]})
             continue
-        else:
+        elif r < 0.95:
             per = _era(pick(orr, SHORT[u]), era)
             if per:
                 ops.append({"actor": "R", "do": ["get_array", v["name"], per]})
+            continue
+        else:
+            # an input withdrawn: one definition period, a long period tiled by them, or
+            # everything (what was withdrawn is "not set before" for the inputs that follow)
+            per = None if chance(orr, 0.2) else _era(pick(orr, SHORT[u] if (u == "year" or chance(orr, 0.5)) else LONG[u]), era)
+            ops.append({"actor": pick(orr, writers), "do": ["delete_arrays", v["name"], per]})
             continue
         if per is None:
             continue  # (29 February of a year that has none)
@@ -575,6 +581,21 @@ def run(scn) -> Result:
                                     m.store[s] = after[s]
                             exp_total = exp_total + m.store[s].astype(numpy.float64) if s in m.store else exp_total
                         _adopt_memoised(sim, env, var, m)
+                elif kind == "delete_arrays":
+                    out = apply_op(sim, world, do, form=form_of(do, step))
+                    gone = list(m.store) if do[2] is None else [s for s in sub_periods(do[2], spec["unit"]) if s in m.store]
+                    for s in gone:
+                        del m.store[s]
+                    H.add(op["actor"], kind, do[1:], canon_outcome(out), sorted(gone))
+                    res.count("steps")
+                    res.count("probe:input_withdrawn")
+                    res.count("clause:C16.untouched")
+                    with observing(env):
+                        held = {str(p_): handles[var].get_array(p_) for p_ in handles[var].get_known_periods()}
+                    if out[0] != "ok" or set(held) != set(m.store) or any(canon(held[s]) != canon(m.store[s]) for s in held):
+                        res.violate("C16.untouched", step, op=do, what="withdrawing inputs did not remove exactly the values set for the periods within the one named",
+                                    outcome=canon_outcome(out), still_held=sorted(set(held) - set(m.store))[:6], lost=sorted(set(m.store) - set(held))[:6],
+                                    rule=spec["set_input"], type=spec["type"], unit=spec["unit"])
                 elif kind == "get_array":
                     out = apply_op(sim, world, do)
                     H.add(op["actor"], kind, do[1:], canon_outcome(out))
